@@ -1581,6 +1581,11 @@ func (sr *SqlRun) execute(ops []Op, gen *sqlGen) {
 					// to the restart property under test (it would otherwise only be counted as another
 					// property's observation)
 					sr.viol(flProp, "statement-panic-after-restart", fmt.Sprintf("%s %s: %s", op.Kind, opSQL(op), e.Panic.String()), i)
+				} else if (flProp == "C03" || flProp == "C07" || flProp == "C14") && prop != flProp {
+					// these checks run workloads (two open transactions, abort-heavy, other index kinds, joins
+					// in a small pool) that the C06/C11 checks do not: an engine panic on a supported statement
+					// in such a workload is reported by the running check as well
+					sr.viol(flProp, "statement-panic", fmt.Sprintf("%s %s: %s", op.Kind, opSQL(op), e.Panic.String()), i)
 				}
 				sr.viol(prop, "statement-panic", fmt.Sprintf("%s %s: %s", op.Kind, opSQL(op), e.Panic.String()), i)
 				sr.dead = true
